@@ -8,11 +8,12 @@ from vlib.core import Broken, Mismatch, Failing
 
 ID = 'C18'
 LEVEL = 'proof'
-THEORIES = ['theories/L0Bits/BitsFacts.vo', 'theories/L3Context/PrimeFacts.vo']
+THEORIES = ['theories/L0Bits/BitsFacts.vo', 'theories/L3Context/PrimeFacts.vo',
+            'theories/L3Context/NamingFacts.vo']
 
 HEADER = '''From Coq Require Import ZArith List Bool String.
 Import ListNotations.
-From Omega Require Import L0Bits.Bits L3Context.Ctx L3Context.Prime.
+From Omega Require Import L0Bits.Bits L3Context.Ctx L3Context.Prime L3Context.Naming.
 From OmegaGen Require Import BitsGen.
 Open Scope string_scope.
 Open Scope Z_scope.
@@ -32,9 +33,10 @@ def prove(ctx):
         'hand-written glue for the table update in bitblast_table)')
     ctx.trusted.append(
         'L3 model identifies a bit with (variable, index); the printing of '
-        'these pairs as dd variable names ("x_0", "x_0\'") is assumed '
-        'injective and is checked on every generated context '
-        '(bits_ctx.naming_ok)')
+        'these pairs as dd variable names ("x_0", "x_0\'"; modelled in '
+        'L3Context/Naming.v) is compared with the real names and checked '
+        'injective on every generated context (see C07_naming_injective and '
+        'finding F15)')
     ctx.trusted.append(
         'type-hint formulas are modelled by the predicate the formula text '
         'denotes; the text -> BDD path (parser, bitblaster) is C06 and is '
@@ -553,7 +555,9 @@ def prime_group(i, inst):
         defs.append(f'Definition {p}u_{name} : pred := '
                     f'of_tt {p}bits ({bc.coq_tree(tree)}).')
     terms = [f'list_eqb bit_eqb {p}bits '
-             f'{bc.coq_bits([q for _, q in inst.pairs])}']
+             f'{bc.coq_bits([q for _, q in inst.pairs])} && '
+             f'list_eqb String.eqb (bit_names {p}t) '
+             f'{bc.coq_idents(inst.bitnames)} && naming_injective {p}t']
     terms += [prime_term(p, o) for o in inst.ops]
     return ('\n'.join(defs), terms)
 
